@@ -36,6 +36,11 @@ let parse_effect (t : string) : effect =
   | ["replacewith"; x; d] -> EReplaceWith (ni x, zi d)
   | ["get"; x] -> EGet (ni x)
   | ["read"; o] -> ERead (ni o)
+  | ["adddep"; e; h; sl; cb] -> EAddDep (ni e, ni h, ni sl, cb = "1")
+  | ["rmdep"; e; sl] -> ERemoveDep (ni e, ni sl)
+  | ["swapdep"; e; sl; cb; hs] -> ESwapDep (ni e, ni sl, List.map ni (String.split_on_char ',' hs), cb = "1")
+  | ["makestale"; e] -> EMakeStale (ni e)
+  | ["invalidate"; e] -> EInvalidateExpert (ni e)
   | ["stabilise"] -> EStabilise
   | ["panic"] -> EPanic
   | _ -> fail ("effect: " ^ t)
@@ -168,6 +173,11 @@ let parse_op (line : string) : op =
   | ["dropnode"; h] -> OpDropNode (ni h)
   | ["dropvar"; x] -> OpDropVar (ni x)
   | ["dropexports"] -> OpDropExports
+  | ["expert"; m] -> OpExpert (zi m)
+  | ["adddep"; e; h; sl; cb] -> OpAddDep (ni e, ni h, ni sl, cb = "1")
+  | ["rmdep"; e; sl] -> OpRemoveDep (ni e, ni sl)
+  | ["makestale"; e] -> OpMakeStale (ni e)
+  | ["invalidateexpert"; e] -> OpInvalidateExpert (ni e)
   | "memonew" :: rest ->
     let f, rest = parse_bindfn rest in
     if rest <> [] then fail "trailing tokens after memonew";
@@ -196,6 +206,8 @@ let show_ptag = function
   | PRecomputeInvalid -> "RecomputeInvalid" | PNotInRch -> "NotInRch" | PAbandonedWatch -> "AbandonedWatch"
   | PInjected -> "Injected"
   | PInvalidScope -> "InvalidScope"
+  | POnlyDuringStabilise -> "OnlyDuringStabilise"
+  | PNotAChild -> "NotAChild"
   | PUnwrapNone s -> "UnwrapNone:" ^ zs s | PIndex s -> "Index:" ^ zs s | PBorrow s -> "Borrow:" ^ zs s
   | PAssert s -> "Assert:" ^ zs s | PDebugAssert s -> "Assert:" ^ zs s
   | POverflow s -> "Overflow:" ^ zs s
@@ -242,6 +254,9 @@ let show_event = function
   | EvBecameNecessary n -> "nec " ^ ns n
   | EvBecameUnnecessary n -> "unnec " ^ ns n
   | EvMemoFn (m, k) -> Printf.sprintf "memofn %d %d" (int_of_nat m) (int_of_z k)
+  | EvEdgeCb (n, e, v) -> Printf.sprintf "edgecb %s %s %s" (ns n) (ns e) (show_val v)
+  | EvExpertRun (n, v) -> Printf.sprintf "exrun %s %s" (ns n) (show_val v)
+  | EvObsChange (n, b) -> Printf.sprintf "obschange %s %s" (ns n) (b2s b)
 
 let show_cutoff _ = "c"
 
@@ -266,6 +281,13 @@ let show_kind (s : state) (x : node) =
                     (show_nats (List.filter (fun r -> match nth_opt s.nodes r with Some x -> x.n_live | None -> false) bd.b_created))
      | None -> "BindLhs(?)")
   | KBindMain (_, lc) -> "BindMain(lhs_change=" ^ ns lc ^ ")"
+  | KExpert x ->
+    (match nth_opt s.experts x with
+     | Some ex ->
+       Printf.sprintf "Expert(children=%s,force_stale=%s,invalid_children=%s,fire_all=%s)"
+         (show_nats (List.filter_map (fun e -> match nth_opt s.edges e with Some ed -> Some ed.ed_child | None -> None) ex.ex_children))
+         (b2s ex.ex_force_stale) (zs ex.ex_num_invalid) (b2s ex.ex_fire_all)
+     | None -> "Expert(?)")
 
 let show_scope (s : state) = function
   | STop -> "T"
